@@ -36,3 +36,9 @@ Definition check_mcase (c : mcase) : list nat :=
   let (es, tr) := c in
   let entries := map (fun p => {| prio := fst p; ident := snd p |}) es in
   if trace_eqb (map ev_code (apply_middlewares [Final] entries)) tr then [] else [1%nat].
+
+(* server mode: middlewares (priority, before-$next ops, after-$next ops), handler ops, onError ops
+   when the handler throws; observed like an ops case *)
+Definition scase := (list (Z * (list op * list op)) * list op * option (list op) * obs)%type.
+Definition check_scase (c : scase) : list nat :=
+  let '(mws, h, err, o) := c in check_case (server_ops mws h err, o).
